@@ -58,7 +58,7 @@ def applications(rng, per_entry, entries=None, max_events=None, interps=False, t
                     args.append({'premise': subst_schema(s['prem'][pi], sg)}); pi += 1
                 else:
                     args.append({'pattern': sg[SVBASE + s['pmap'][pname]]})
-            reqs.append({'cmd': 'lemma', 'entry': name, 'args': args, 'interps': interps, 'traces': list(traces)})
+            reqs.append({'cmd': 'lemma', 'entry': name, 'args': args, 'interps': interps, 'traces': list(traces), 'nest': k % 3})
     return reqs, sch
 
 
